@@ -15,6 +15,8 @@ struct Plan {
     uint32_t mean_gap = 100, max_preemptions = 32;      // seeded schedule; mean_gap 0 = serial orders only
     uint32_t locale = 0;                                // 1: the process runs under a non-"C" LC_ALL (C.UTF-8: same numeric conventions, different name)
     uint32_t victim = 0, victim_op = 0, runner = 0, offset = 0;   // window-targeted strategy when victim != 0
+    uint32_t fresh = 0;             // knob: also compare every thread's results with the same program run alone *in a process of its own* (see run_forked)
+    std::vector<std::vector<uint64_t>> expected;      // (computed, not part of the plan text) digests of those solitary runs
     std::vector<std::vector<BOp>> programs;             // one per caller thread
     std::vector<Switch> switches;                       // non-empty: explicit schedule (replay / minimised)
 };
